@@ -229,6 +229,47 @@ class Check(BaseCheck):
             for op, exp in (('<', a < b), ('=', a == b), ('>', a > b), ('<=', a <= b), ('>=', a >= b), ('<>', a != b)):
                 self.expect_is(rec, e, '%s%s%s' % (A, op, B), exp, 'DATE%sDATE' % op)
             rec.sample({'formulas': ['%s-%s' % (B, A), 'N(%s)' % A]})
+            self.with_time_of_day(rec, e, rnd)
+
+    def with_time_of_day(self, rec, e, rnd):
+        """the same serial (now with its time-of-day fraction) seen through N, DATEVALUE, DAYS, - and the comparisons, for
+        date-times supplied by the host and written as text"""
+        top = D(9999, 12, 31, 23, 59, 59)
+        a, b = self.rand_dt(rnd), self.rand_dt(rnd)
+        if rnd.random() < 0.4:      # same or neighbouring day: the fractions decide
+            b = D.fromordinal(a.toordinal() + rnd.choice([0, 0, 1, -1])) + (self.rand_dt(rnd) - D.min) % datetime.timedelta(days=1)
+        if not (MARCH1 <= a <= top and MARCH1 <= b <= top):
+            return
+        if rnd.random() < 0.5:      # whole seconds, so that the text forms carry the same instant
+            a, b = a.replace(microsecond=0), b.replace(microsecond=0)
+        sa, sb = serial_of(a), serial_of(b)
+        fa, fb = sa.numerator // sa.denominator, sb.numerator // sb.denominator
+        e.bind(d_a=a, d_b=b)
+        MS = Fr(2, 10 ** 8)
+
+        def num(f, what, *accepted):
+            v = e.val(f)
+            rec.case()
+            if not (is_num(v) and any(abs(Fr(v) - x) <= 4 * MS for x in accepted)):
+                rec.violation('C13/formula:' + what, formula=f, d_a=a, d_b=b, got=v, accepted=[float(x) for x in accepted])
+            rec.nt((what, f, a.isoformat(), b.isoformat()))
+        num('N(d_a)', 'N(date-time)', sa)
+        num('d_b-d_a', 'datetime-datetime', sb - sa)
+        num('N(d_b)-%s' % hx.numlit(float(sa)), 'N(datetime)-serial', sb - sa)
+        # DAYS / DATEVALUE: the serial itself (as the code does) or its whole-day part (as Excel does) - never anything else
+        num('DAYS(d_b,d_a)', 'DAYS(date-times)', sb - sa, fb - fa)
+        num('DATEVALUE(d_a)', 'DATEVALUE(date-time)', sa, fa)
+        if a.microsecond == 0 and b.microsecond == 0:
+            ta, tb = a.strftime('%Y-%m-%d %H:%M:%S'), b.strftime('%Y-%m-%dT%H:%M:%S')
+            num('DAYS("%s","%s")' % (tb, ta), 'DAYS(date-time text)', sb - sa, fb - fa)
+            num('DAYS(d_b,"%s")' % ta, 'DAYS(date-time text)', sb - sa, fb - fa)
+            num('DATEVALUE("%s")' % ta, 'DATEVALUE(date-time text)', sa, fa)
+            num('"%s"-"%s"' % (tb, ta), 'datetime-datetime(text)', sb - sa)
+        for op, exp in (('<', a < b), ('=', a == b), ('>', a > b), ('<=', a <= b), ('>=', a >= b), ('<>', a != b)):
+            self.expect_is(rec, e, 'd_a%sd_b' % op, exp, 'datetime%sdatetime' % op)
+        if abs(sa - sb) > 8 * MS:
+            self.expect_is(rec, e, 'd_a<%s' % hx.numlit(float(sb)), a < b, 'datetime<serial')
+            self.expect_is(rec, e, '%s>=d_b' % hx.numlit(float(sa)), a >= b, 'serial>=datetime')
 
     def rand_day(self, rnd):
         k = rnd.random()
